@@ -1,8 +1,11 @@
 package main
 
 import (
+	"go/constant"
 	"go/token"
 	"go/types"
+	"math/bits"
+	"strings"
 
 	"golang.org/x/tools/go/ssa"
 )
@@ -16,6 +19,10 @@ type intEnv struct {
 	lens    map[ssa.Value]int64 // len(v) for slice-typed values
 	params  map[ssa.Value]int64
 	globals map[string]int64 // package-level variable name -> value
+	fuel    *int             // shared step budget for helper/loop evaluation
+	stack   int              // helper inlining depth
+	unknown map[ssa.Value]bool
+	closed  bool // every phi that matters has been assigned by the walker
 }
 
 func wrapToType(x int64, t types.Type) int64 {
@@ -49,11 +56,31 @@ func evalInt(v ssa.Value, env intEnv, d int) (int64, bool) {
 	}
 	switch x := v.(type) {
 	case *ssa.Const:
+		if x.Value != nil && x.Value.Kind() == constant.Bool {
+			if constant.BoolVal(x.Value) {
+				return 1, true
+			}
+			return 0, true
+		}
 		return constInt(x)
 	case *ssa.UnOp:
 		if g, ok := x.X.(*ssa.Global); ok && x.Op == token.MUL {
 			if k, ok := env.globals[g.Name()]; ok {
 				return k, true
+			}
+		}
+		switch x.Op {
+		case token.NOT:
+			if k, ok := evalInt(x.X, env, d+1); ok {
+				return 1 - k, true
+			}
+		case token.SUB:
+			if k, ok := evalInt(x.X, env, d+1); ok {
+				return wrapToType(-k, x.Type()), true
+			}
+		case token.XOR:
+			if k, ok := evalInt(x.X, env, d+1); ok {
+				return wrapToType(^k, x.Type()), true
 			}
 		}
 		return 0, false
@@ -103,6 +130,43 @@ func evalInt(v ssa.Value, env intEnv, d int) (int64, bool) {
 			r = a & b
 		case token.OR:
 			r = a | b
+		case token.XOR:
+			r = a ^ b
+		case token.AND_NOT:
+			r = a &^ b
+		case token.EQL, token.NEQ, token.LSS, token.LEQ, token.GTR, token.GEQ:
+			cmp := 0
+			if isUnsignedT(x.X.Type()) && intBits(x.X.Type()) == 64 {
+				ua, ub := uint64(a), uint64(b)
+				if ua < ub {
+					cmp = -1
+				} else if ua > ub {
+					cmp = 1
+				}
+			} else if a < b {
+				cmp = -1
+			} else if a > b {
+				cmp = 1
+			}
+			res := false
+			switch x.Op {
+			case token.EQL:
+				res = cmp == 0
+			case token.NEQ:
+				res = cmp != 0
+			case token.LSS:
+				res = cmp < 0
+			case token.LEQ:
+				res = cmp <= 0
+			case token.GTR:
+				res = cmp > 0
+			case token.GEQ:
+				res = cmp >= 0
+			}
+			if res {
+				return 1, true
+			}
+			return 0, true
 		default:
 			return 0, false
 		}
@@ -111,7 +175,7 @@ func evalInt(v ssa.Value, env intEnv, d int) (int64, bool) {
 		if bi, ok := x.Call.Value.(*ssa.Builtin); ok {
 			switch bi.Name() {
 			case "len":
-				if k, ok := env.lens[x.Call.Args[0]]; ok {
+				if k, ok := lenOfValue(x.Call.Args[0], env, d+1); ok {
 					return k, true
 				}
 			case "min", "max":
@@ -127,7 +191,294 @@ func evalInt(v ssa.Value, env intEnv, d int) (int64, bool) {
 				}
 				return best, have
 			}
+			return 0, false
 		}
+		if sc := x.Call.StaticCallee(); sc != nil {
+			if r, ok := evalBitsCall(sc.String(), x, env, d); ok {
+				return r, true
+			}
+			if rs, ok := evalHelper(sc, x.Call.Args, env, d); ok && len(rs) == 1 {
+				return rs[0], true
+			}
+		}
+	case *ssa.Extract:
+		if call, ok := x.Tuple.(*ssa.Call); ok {
+			if sc := call.Call.StaticCallee(); sc != nil {
+				if rs, ok := evalHelper(sc, call.Call.Args, env, d); ok && x.Index < len(rs) {
+					return rs[x.Index], true
+				}
+			}
+		}
+	case *ssa.Phi:
+		return evalPhi(x, env, d)
 	}
 	return 0, false
+}
+
+func evalBitsCall(name string, x *ssa.Call, env intEnv, d int) (int64, bool) {
+	if !strings.HasPrefix(name, "math/bits.") || len(x.Call.Args) != 1 {
+		return 0, false
+	}
+	a, ok := evalInt(x.Call.Args[0], env, d+1)
+	if !ok {
+		return 0, false
+	}
+	u := uint64(a)
+	switch strings.TrimPrefix(name, "math/bits.") {
+	case "Len", "Len64":
+		return int64(bits.Len64(u)), true
+	case "Len32":
+		return int64(bits.Len32(uint32(u))), true
+	case "Len16":
+		return int64(bits.Len16(uint16(u))), true
+	case "Len8":
+		return int64(bits.Len8(uint8(u))), true
+	case "LeadingZeros", "LeadingZeros64":
+		return int64(bits.LeadingZeros64(u)), true
+	case "LeadingZeros32":
+		return int64(bits.LeadingZeros32(uint32(u))), true
+	case "TrailingZeros", "TrailingZeros64":
+		return int64(bits.TrailingZeros64(u)), true
+	case "TrailingZeros32":
+		return int64(bits.TrailingZeros32(uint32(u))), true
+	case "OnesCount", "OnesCount64":
+		return int64(bits.OnesCount64(u)), true
+	}
+	return 0, false
+}
+
+// lenOfValue: the length of a slice-typed operand under env (a value whose
+// length is fixed by env, or a reslice of one).
+func lenOfValue(v ssa.Value, env intEnv, d int) (int64, bool) {
+	if k, ok := env.lens[v]; ok {
+		return k, true
+	}
+	switch x := v.(type) {
+	case *ssa.ChangeType:
+		return lenOfValue(x.X, env, d+1)
+	case *ssa.Slice:
+		n, ok := lenOfValue(x.X, env, d+1)
+		if !ok {
+			return 0, false
+		}
+		lo, hi := int64(0), n
+		if x.Low != nil {
+			if lo, ok = evalInt(x.Low, env, d+1); !ok {
+				return 0, false
+			}
+		}
+		if x.High != nil {
+			if hi, ok = evalInt(x.High, env, d+1); !ok {
+				return 0, false
+			}
+		}
+		if lo < 0 || hi < lo || hi > n {
+			return 0, false
+		}
+		return hi - lo, true
+	}
+	return 0, false
+}
+
+// evalHelper evaluates a call to a module function whose result depends only
+// on integer arguments and slice lengths: the callee's blocks are followed
+// from the entry along the branch each (evaluable) condition selects, with a
+// step budget; anything touching memory or an unknown condition gives ok=false.
+func evalHelper(f *ssa.Function, args []ssa.Value, env intEnv, d int) ([]int64, bool) {
+	if f == nil || len(f.Blocks) == 0 || f.Pkg == nil || !strings.HasPrefix(f.Pkg.Pkg.Path(), modPath) || env.stack > 6 || len(args) != len(f.Params) {
+		return nil, false
+	}
+	sub := intEnv{lens: map[ssa.Value]int64{}, params: map[ssa.Value]int64{}, globals: env.globals, fuel: env.fuel, stack: env.stack + 1, closed: true, unknown: map[ssa.Value]bool{}}
+	if sub.fuel == nil {
+		n := 20000
+		sub.fuel = &n
+	}
+	for i, p := range f.Params {
+		if isIntegerT(p.Type()) || isBoolT(p.Type()) {
+			k, ok := evalInt(args[i], env, d+1)
+			if !ok {
+				return nil, false
+			}
+			sub.params[p] = k
+		} else if n, ok := lenOfValue(args[i], env, d+1); ok {
+			sub.lens[p] = n
+		}
+	}
+	ret := walkBlocks(f.Blocks[0], nil, sub, func(b *ssa.BasicBlock) bool { return false })
+	if ret == nil {
+		return nil, false
+	}
+	r, ok := ret.Instrs[len(ret.Instrs)-1].(*ssa.Return)
+	if !ok {
+		return nil, false
+	}
+	var out []int64
+	for _, rv := range r.Results {
+		k, ok := evalInt(rv, sub, 0)
+		if !ok {
+			return nil, false
+		}
+		out = append(out, k)
+	}
+	return out, true
+}
+
+// walkBlocks follows control flow from block b (entered from pred `from`),
+// assigning phis on every block entry, until a block ends in Return / Panic or
+// stop(b) holds. It returns the last block, or nil when a condition cannot be
+// evaluated or the budget runs out.
+func walkBlocks(b, from *ssa.BasicBlock, env intEnv, stop func(*ssa.BasicBlock) bool) *ssa.BasicBlock {
+	for {
+		if *env.fuel <= 0 {
+			return nil
+		}
+		*env.fuel--
+		if from != nil {
+			pi := -1
+			for i, p := range b.Preds {
+				if p == from {
+					pi = i
+				}
+			}
+			if pi < 0 {
+				return nil
+			}
+			vals := map[*ssa.Phi]int64{}
+			var unknown []*ssa.Phi
+			for _, in := range b.Instrs {
+				p, ok := in.(*ssa.Phi)
+				if !ok {
+					break
+				}
+				if !isIntegerT(p.Type()) && !isBoolT(p.Type()) {
+					if n, ok := lenOfValue(p.Edges[pi], env, 0); ok {
+						env.lens[p] = n
+					} else {
+						delete(env.lens, p)
+					}
+					continue
+				}
+				if k, ok := evalInt(p.Edges[pi], env, 0); ok {
+					vals[p] = k
+				} else {
+					unknown = append(unknown, p)
+				}
+			}
+			for p, k := range vals {
+				env.params[p] = k
+			}
+			for p := range vals {
+				if env.unknown != nil {
+					delete(env.unknown, p)
+				}
+			}
+			for _, p := range unknown {
+				delete(env.params, p)
+				if env.unknown != nil {
+					env.unknown[p] = true
+				}
+			}
+		}
+		if stop(b) {
+			return b
+		}
+		switch t := b.Instrs[len(b.Instrs)-1].(type) {
+		case *ssa.Return:
+			return b
+		case *ssa.Jump:
+			from, b = b, b.Succs[0]
+		case *ssa.If:
+			k, ok := evalInt(t.Cond, env, 0)
+			if !ok {
+				return nil
+			}
+			if k != 0 {
+				from, b = b, b.Succs[0]
+			} else {
+				from, b = b, b.Succs[1]
+			}
+		default:
+			return nil
+		}
+	}
+}
+
+// evalPhi: a phi of the function under evaluation. Inside evalHelper the
+// walker has already assigned it (env.params). Otherwise: a loop-header phi of
+// a pure integer loop is obtained by following the loop from its entry values
+// until it exits; an if/else merge is resolved by following the branch that
+// the (evaluable) condition at the immediate dominator selects.
+func evalPhi(p *ssa.Phi, env intEnv, d int) (int64, bool) {
+	if env.unknown != nil && env.unknown[p] {
+		return 0, false
+	}
+	if env.closed || env.stack > 4 || d > 30 {
+		return 0, false // inside a helper every reachable phi is assigned by the walker
+	}
+	b := p.Block()
+	sub := intEnv{lens: map[ssa.Value]int64{}, params: map[ssa.Value]int64{}, globals: env.globals, fuel: env.fuel, stack: env.stack + 1, unknown: map[ssa.Value]bool{}}
+	for k, v := range env.lens {
+		sub.lens[k] = v
+	}
+	for k, v := range env.params {
+		sub.params[k] = v
+	}
+	if sub.fuel == nil {
+		n := 20000
+		sub.fuel = &n
+	}
+	// loop header?
+	var backs, entries []*ssa.BasicBlock
+	for _, pr := range b.Preds {
+		if b.Dominates(pr) {
+			backs = append(backs, pr)
+		} else {
+			entries = append(entries, pr)
+		}
+	}
+	if len(backs) > 0 {
+		if len(entries) != 1 {
+			return 0, false
+		}
+		inLoop := map[*ssa.BasicBlock]bool{b: true}
+		work := append([]*ssa.BasicBlock{}, backs...)
+		for len(work) > 0 {
+			x := work[len(work)-1]
+			work = work[:len(work)-1]
+			if inLoop[x] {
+				continue
+			}
+			inLoop[x] = true
+			work = append(work, x.Preds...)
+		}
+		// values the entry edge carries must themselves be evaluable outside the loop
+		last := walkBlocks(b, entries[0], sub, func(x *ssa.BasicBlock) bool { return !inLoop[x] })
+		if last == nil || inLoop[last] {
+			return 0, false
+		}
+		k, ok := sub.params[p]
+		return k, ok && !sub.unknown[p]
+	}
+	// merge: follow from the immediate dominator
+	dom := b.Idom()
+	if dom == nil {
+		return 0, false
+	}
+	var arrivedFrom *ssa.BasicBlock
+	cur, from := dom, (*ssa.BasicBlock)(nil)
+	// step once out of dom, then walk until b
+	first := true
+	last := walkBlocks(cur, from, sub, func(x *ssa.BasicBlock) bool {
+		if first {
+			first = false
+			return false
+		}
+		return x == b
+	})
+	_ = arrivedFrom
+	if last != b {
+		return 0, false
+	}
+	k, ok := sub.params[p]
+	return k, ok && !sub.unknown[p]
 }
